@@ -291,7 +291,10 @@ def make_reset_harness(symbol: str, variant: str, value_kinds=("finite",)):
         elif variant == "some":
             k = m.keys[eng.choice(len(m.keys), "reset.key")]
             targets = [k]
-            ok, res = call(e.reset_parameters, k)
+            if eng.choice(2, "reset.form") == 0:
+                ok, res = call(e.reset_parameters, k)
+            else:
+                ok, res = call(e.reset_parameters, **{k: (True, None, 0)[eng.choice(3, "reset.kwvalue")]})     # keyword form: the value can be anything
         else:
             targets = list(m.keys)
             ok, res = call(e.reset_parameters)
